@@ -465,14 +465,10 @@ def judge(ctx, module, obs_path, n_records, env=None, timeout=1500, name=None, w
     r = tlc(ctx, module, "Trace.cfg", env=e, workers=workers, timeout=timeout, name=name or module, xmx=xmx)
     aborted = False
     if not r["ok"]:
-        # a judge that stops on a malformed observation must not hide the violations it already reported
-        if any(pr[0] == "FAIL" for pr in r["prints"]):
-            aborted = True
-            log("[judge] %s stopped early (TLC evaluation error); reporting the %d failures found so far"
-                % (name or module, sum(1 for pr in r["prints"] if pr[0] == "FAIL")))
-        else:
-            tail = "\n".join(r["out"].splitlines()[-40:])
-            raise ToolError("trace validation run of %s failed:\n%s" % (module, tail))
+        # TLC could not evaluate the clauses on some observation (an observation of a shape the specification does not
+        # expect).  That record is undecided; it must not hide violations on the other records: validate sequentially,
+        # step over every record that cannot be evaluated, and give up only if nothing else is found.
+        return _judge_stepping_over(ctx, module, obs_path, n_records, env, timeout, name, xmx, r)
     fails, drifts = [], []
     tot = {"n": 0, "fail": 0, "skip": 0, "nt": 0, "drift": 0}
     seen_chunks = 0
@@ -498,6 +494,53 @@ def judge(ctx, module, obs_path, n_records, env=None, timeout=1500, name=None, w
     log("[judge] %s: %d records, %d failing, %d drift, %d skipped, %d non-trivial, %.1fs"
         % (name or module, n_records, len(fails), len(drifts), tot["skip"], tot["nt"], r["wall"]))
     return fails, drifts, tot
+
+
+def _judge_stepping_over(ctx, module, obs_path, n_records, env, timeout, name, xmx, first):
+    with open(obs_path) as f:
+        lines = f.readlines()
+    fails, drifts = [], []
+    tot = {"n": 0, "fail": 0, "skip": 0, "nt": 0, "drift": 0}
+    undecided, off, last = [], 0, first
+    part = ctx.path("judge-rest.ndjson")
+    while off < len(lines):
+        with open(part, "w") as g:
+            g.writelines(lines[off:])
+        e = {"OBS": part, "NCHUNKS": 1}
+        if env:
+            e.update(env)
+        r = tlc(ctx, module, "Trace.cfg", env=e, workers=1, timeout=timeout, name=(name or module) + "-seq", xmx=xmx)
+        last = r
+        for pr in r["prints"]:
+            if pr[0] == "FAIL":
+                fails.append((pr[1] + off, pr[2]))
+            elif pr[0] == "DRIFT":
+                drifts.append((pr[1] + off, pr[2]))
+        if r["ok"]:
+            break
+        m = re.findall(r"/\\ i = (\d+)", r["out"])
+        if not m:
+            break
+        bad = int(m[-1])                      # 1-based index (within the part) of the record that could not be evaluated
+        undecided.append(bad + off)
+        off += bad
+        if len(undecided) >= 30:
+            break
+    if os.path.exists(part):
+        os.remove(part)
+    fails = sorted(set((i, tuple(w) if isinstance(w, (list, tuple)) else w) for (i, w) in fails))
+    fails = [(i, list(w) if isinstance(w, tuple) else w) for (i, w) in fails]
+    ctx.extra["judge_undecided_records"] = ctx.extra.get("judge_undecided_records", 0) + len(undecided)
+    log("[judge] %s: TLC could not evaluate %d record(s) (first: %s); %d failing records found on the others"
+        % (name or module, len(undecided), undecided[:5], len(fails)))
+    if not fails:
+        tail = "\n".join(last["out"].splitlines()[-40:])
+        raise ToolError("trace validation run of %s failed on records %s and found no violation elsewhere:\n%s"
+                        % (module, undecided[:10], tail))
+    tot["n"] = n_records
+    tot["fail"] = len(fails)
+    tot["drift"] = len(drifts)
+    return fails, sorted(drifts), tot
 
 
 # --------------------------------------------------------------------------
